@@ -263,10 +263,14 @@ def gen_sparse(rng, tier, kind):
             # table index -> sector gts_off + idx * gt_sectors ; indices need not follow directory order
             idxs = list(range(len(used_dirs) + rng.pick([0, 0, 2])))
             rng.shuffle(idxs)
+            # table numbers using the upper bits of the 32-bit index field (tables far away in the sparse file)
+            hi = rng.pick([65536, 70001, (1 << 20) + 3, (1 << 31) + 1]) if rng.chance(0.12) else 0
+            idxs = [i + hi if (hi and k % 2 == 0) else i for k, i in enumerate(idxs)]
             for d, ti in zip(used_dirs, idxs):
                 table_sector[d] = (cur + ti * c["gt_sectors"], ti)
             c["gts_sectors"] = (max(idxs) + 1 if idxs else 0) * c["gt_sectors"]
-            cur += c["gts_sectors"]
+            c["meta_end"] = cur + c["gts_sectors"]
+            cur += (len(idxs) + 1) * c["gt_sectors"]
         else:
             ds = list(used_dirs)
             if rng.chance(0.4):
@@ -391,6 +395,7 @@ def gen_sparse(rng, tier, kind):
     fsize = cur * SECTOR
     if not comp and kind != "x":
         fsize = max(fsize, end_data * SECTOR)
+    fsize = max(fsize, c.get("meta_end", 0) * SECTOR)
     if kind == "hosted" and c["footer"]:
         fsize = (fsize // SECTOR + 1 + rng.pick([0, 1])) * SECTOR + 1024   # footer marker sector, footer, EOS
         if desc[1] and rng.chance(0.5):
@@ -729,6 +734,7 @@ class VmdkSuite(Suite):
         if case["kind"] != "flat":
             d["gt_size"] = case["gt_size"]
             d["gd_gt_128"] = case["gd_size"] > 128
+            d["se_table_index_hi"] = any(v & 0xFFFF0000 for _, v in case["gd"]) if case["kind"] == "sesparse" else False
             d["multi_sector_cgrain"] = any(v == 1 for _, _, v in case.get("cgrains", []))
         d["req_kinds"] = ",".join(sorted({r[0] for r in case["reqs"]}))
         return d
